@@ -534,6 +534,9 @@ def case_arm_nodes(f, case):
     """all nodes executed in a switch arm: the case's sub-statement and the following sibling statements up to the next
     case/default label of the same compound"""
     out = list(case.walk())
+    # case A: case B: stmt  -> the labels nest; the siblings follow the outermost label of the chain
+    while case.parent is not None and case.parent.k in ('CaseStmt', 'DefaultStmt'):
+        case = case.parent
     par = case.parent
     if par is not None and par.k == 'CompoundStmt':
         ks = par.kids
